@@ -94,41 +94,54 @@ func r06ab(c *an.Ctx) {
 	}
 	// failed release: the error check on this very acknowledgement returns a non-nil error without reaching DONE
 	for i, r := range []ssa.Instruction{r1, r2} {
-		okRet := false
-		an.Instrs(fn, func(in ssa.Instruction) {
-			ifi, ok := in.(*ssa.If)
+		// assume this very acknowledgement carries release errors (cut every edge on which len(GetTaskReleaseErrors()) == 0
+		// is established) and follow the flow from the receive: DONE, the unlisting and (for the first release) the second
+		// release must be unreachable, and whatever is returned must be a non-nil error
+		tests := 0
+		cut := func(b *ssa.BasicBlock, succ int) bool {
+			ifi, ok := b.Instrs[len(b.Instrs)-1].(*ssa.If)
 			if !ok {
-				return
+				return false
 			}
 			bo, ok := ifi.Cond.(*ssa.BinOp)
-			if !ok || bo.Op != token.GTR {
-				return
+			if !ok {
+				return false
 			}
 			ln, ok := bo.X.(*ssa.Call)
 			if !ok || an.CalleeName(&ln.Call) != "builtin.len" {
-				return
+				return false
+			}
+			if k, isK := an.ConstInt(bo.Y); !isK || k != 0 {
+				return false
 			}
 			get, ok := ln.Call.Args[0].(*ssa.Call)
-			if !ok || an.MethodName(&get.Call) != "GetTaskReleaseErrors" || get.Call.Args[0] != r.(ssa.Value) {
-				return
+			if !ok || an.MethodName(&get.Call) != "GetTaskReleaseErrors" || !an.DerivesFrom(an.Args(&get.Call)[0], r.(ssa.Value)) {
+				return false
 			}
-			errSucc := ifi.Block().Succs[0]
-			avoid := []ssa.Instruction{done, unlist}
-			if r == r1 {
-				avoid = append(avoid, s2)
+			tests++
+			switch bo.Op {
+			case token.GTR, token.NEQ:
+				return succ == 1
+			case token.EQL, token.LEQ:
+				return succ == 0
 			}
-			if !an.AllPathsReturnAvoiding(errSucc, avoid) {
-				return
+			return false
+		}
+		fl := an.FlowFrom(r.Block(), cut)
+		okRet := tests > 0 && !fl.Reaches(done) && !fl.Reaches(unlist)
+		if r == r1 && fl.Reaches(s2) {
+			okRet = false
+		}
+		nret := 0
+		for _, ret := range fl.ReachedReturns() {
+			nret++
+			if fl.Nilness(an.RetVal(ret, 0)) != 1 {
+				okRet = false
 			}
-			// every return reachable from errSucc returns a non-nil error
-			all := true
-			for _, ret := range an.Returns(fn) {
-				if (ret.Block() == errSucc || an.BlockReaches(errSucc, ret.Block())) && !an.NonNil(an.RetVal(ret, 0)) {
-					all = false
-				}
-			}
-			okRet = all
-		})
+		}
+		if nret == 0 {
+			okRet = false
+		}
 		c.Ob(fmt.Sprintf("%s|release-error-returned#%d", key, i+1), r.Pos(), okRet, "a failed task release must make the teardown return an error at once, without running hooks/second release or reporting DONE")
 	}
 
